@@ -127,7 +127,23 @@ def cases(draw):
     pairs = [(a, draw(small_value())) for a in draw(
         st.lists(st.sampled_from(pool), max_size=4 if len(pool) > 4 else 3, unique=True))]
     if target is not None:
-        pairs.insert(draw(st.integers(0, len(pairs))), ('items', copy.deepcopy(target)))
+        tgt = copy.deepcopy(target)
+        at = draw(st.integers(0, len(pairs)))
+        if op in ('seq_to_map', 'index_to_map') and kind in ('seq_of_maps', 'index') and tgt[1] \
+                and draw(st.integers(0, 2)) == 0:
+            # on dumping, an item object that is also referenced from another
+            # attribute is ONE node in the tree the sweeten hook sees: the other
+            # reference must come out of the transform untouched
+            j = draw(st.integers(0, len(tgt[1]) - 1))
+            if kind == 'seq_of_maps':
+                tgt[1][j] = ['&', 'it', tgt[1][j]]
+            else:
+                tgt[1][j][1] = ['&', 'it', tgt[1][j][1]]
+            pairs.insert(at, ('items', tgt))
+            pairs.insert(draw(st.integers(at + 1, len(pairs))), ('current', ['*', 'it']))
+            kind += '+item_also_referenced_elsewhere'
+        else:
+            pairs.insert(at, ('items', tgt))
     return {'tree': T.M(pairs), 'op': op, 'key': key_attr, 'val': val_attr,
             'strict': draw(st.booleans()), 'kind': kind if target is not None else 'missing'}
 
